@@ -603,12 +603,282 @@ fn check_transcript<H: ElementHasher<BaseField = BaseElement>>(what: &str, proof
     }
 }
 
+// STRUCTURED DAMAGE (C03 / C06): every length-prefixed component truncated, extended, emptied; FRI layers
+// removed / duplicated / swapped; optional components added / removed; counts off by one
+// =================================================================================================
+/// a component as a list of length-prefixed blobs: (prefix width in bytes, payload)
+#[derive(Clone, PartialEq)]
+struct Blobs {
+    head: Vec<u8>,
+    blobs: Vec<(usize, Vec<u8>)>,
+    tail: Vec<u8>,
+}
+
+impl Blobs {
+    fn parse(bytes: &[u8], head_len: usize, widths: &[usize], tail_len: usize) -> Blobs {
+        let mut pos = head_len;
+        let mut blobs = Vec::new();
+        for &w in widths {
+            let mut len = 0usize;
+            for k in 0..w {
+                len |= (bytes[pos + k] as usize) << (8 * k);
+            }
+            pos += w;
+            blobs.push((w, bytes[pos..pos + len].to_vec()));
+            pos += len;
+        }
+        assert_eq!(pos + tail_len, bytes.len(), "component layout");
+        Blobs { head: bytes[..head_len].to_vec(), blobs, tail: bytes[pos..].to_vec() }
+    }
+
+    fn bytes(&self) -> Vec<u8> {
+        let mut out = self.head.clone();
+        for (w, b) in self.blobs.iter() {
+            for k in 0..*w {
+                out.push((b.len() >> (8 * k)) as u8);
+            }
+            out.extend_from_slice(b);
+        }
+        out.extend_from_slice(&self.tail);
+        out
+    }
+
+    /// every variant with one blob shortened / lengthened by one unit (1, 8, 16, 24, 32 bytes) or emptied
+    fn variants(&self) -> Vec<(String, Vec<u8>)> {
+        let mut out = Vec::new();
+        for i in 0..self.blobs.len() {
+            for unit in [1usize, 8, 16, 24, 32] {
+                let b = &self.blobs[i].1;
+                if b.len() >= unit {
+                    let mut v = self.clone();
+                    v.blobs[i].1.truncate(b.len() - unit);
+                    out.push((format!("blob {i} shortened by {unit} bytes"), v.bytes()));
+                    let mut v = self.clone();
+                    let ext = b[b.len() - unit..].to_vec();
+                    v.blobs[i].1.extend_from_slice(&ext);
+                    out.push((format!("blob {i} extended by a copy of its last {unit} bytes"), v.bytes()));
+                }
+                let mut v = self.clone();
+                v.blobs[i].1.extend(std::iter::repeat(0u8).take(unit));
+                out.push((format!("blob {i} extended by {unit} zero bytes"), v.bytes()));
+            }
+            if !self.blobs[i].1.is_empty() {
+                let mut v = self.clone();
+                v.blobs[i].1.clear();
+                out.push((format!("blob {i} emptied"), v.bytes()));
+            }
+        }
+        out
+    }
+}
+
+fn fri_layout(bytes: &[u8]) -> (usize, Vec<usize>) {
+    // u8 layer count, per layer two u32-prefixed blobs, u16-prefixed remainder, u8 partitions
+    let n = bytes[0] as usize;
+    let mut widths = Vec::new();
+    for _ in 0..n {
+        widths.push(4);
+        widths.push(4);
+    }
+    widths.push(2);
+    (n, widths)
+}
+
+/// all structured variants of `proof`; each is a complete proof (re-assembled from mutated components)
+fn structured_variants(proof: &Proof) -> Vec<(String, Proof)> {
+    use winterfell::Deserializable;
+    let mut out: Vec<(String, Proof)> = Vec::new();
+    // commitments
+    let cb = proof.commitments.to_bytes();
+    for (d, b) in Blobs::parse(&cb, 0, &[2], 0).variants() {
+        if let Ok(c) = air::proof::Commitments::read_from_bytes(&b) {
+            let mut p = proof.clone();
+            p.commitments = c;
+            out.push((format!("commitments: {d}"), p));
+        }
+    }
+    // trace and constraint queries
+    for (qi, q) in proof.trace_queries.iter().chain(std::iter::once(&proof.constraint_queries)).enumerate() {
+        let qb = q.to_bytes();
+        for (d, b) in Blobs::parse(&qb, 0, &[4, 4], 0).variants() {
+            if let Ok(nq) = air::proof::Queries::read_from_bytes(&b) {
+                let mut p = proof.clone();
+                if qi < proof.trace_queries.len() {
+                    p.trace_queries[qi] = nq;
+                } else {
+                    p.constraint_queries = nq;
+                }
+                out.push((format!("queries {qi}: {d}"), p));
+            }
+        }
+    }
+    // one more / one fewer segment of trace queries
+    {
+        let mut p = proof.clone();
+        p.trace_queries.push(proof.trace_queries[0].clone());
+        out.push(("trace queries: first segment's openings appended as an extra segment".into(), p));
+        if proof.trace_queries.len() > 1 {
+            let mut p = proof.clone();
+            p.trace_queries.pop();
+            out.push(("trace queries: last segment's openings removed".into(), p));
+        }
+    }
+    // OOD frame
+    let ob = proof.ood_frame.to_bytes();
+    for (d, b) in Blobs::parse(&ob, 0, &[2, 2, 2], 0).variants() {
+        if let Ok(f) = air::proof::OodFrame::read_from_bytes(&b) {
+            let mut p = proof.clone();
+            p.ood_frame = f;
+            out.push((format!("OOD frame: {d}"), p));
+        }
+    }
+    // the Lagrange kernel frame's own size byte (first byte of blob 1) set to other row counts
+    {
+        let mut bl = Blobs::parse(&ob, 0, &[2, 2, 2], 0);
+        if !bl.blobs[1].1.is_empty() {
+            let orig = bl.blobs[1].1.clone();
+            for rows in [0u8, 1, 2, orig[0].wrapping_sub(1), orig[0].wrapping_add(1), 64, 255] {
+                for keep_payload in [true, false] {
+                    let mut nb = orig.clone();
+                    nb[0] = rows;
+                    if !keep_payload {
+                        // payload resized to `rows` elements by truncation / repetition of the first element
+                        let elem = (orig.len() - 1) / (orig[0].max(1) as usize);
+                        if elem == 0 {
+                            continue;
+                        }
+                        let first = orig[1..1 + elem].to_vec();
+                        nb.truncate(1);
+                        for _ in 0..rows {
+                            nb.extend_from_slice(&first);
+                        }
+                    }
+                    if nb == orig {
+                        continue;
+                    }
+                    bl.blobs[1].1 = nb;
+                    if let Ok(f) = air::proof::OodFrame::read_from_bytes(&bl.bytes()) {
+                        let mut p = proof.clone();
+                        p.ood_frame = f;
+                        out.push((format!("OOD frame: Lagrange kernel frame declared with {rows} rows (payload {})", if keep_payload { "kept" } else { "resized" }), p));
+                    }
+                }
+            }
+        }
+    }
+    // FRI proof: blobs, then whole layers
+    let fb = proof.fri_proof.to_bytes();
+    let (n_layers, widths) = fri_layout(&fb);
+    let parsed = Blobs::parse(&fb, 1, &widths, 1);
+    for (d, b) in parsed.variants() {
+        if let Ok(f) = read_like(&proof.fri_proof, &b) {
+            let mut p = proof.clone();
+            p.fri_proof = f;
+            out.push((format!("FRI proof: {d}"), p));
+        }
+    }
+    let mut layer_edits: Vec<(String, Blobs)> = Vec::new();
+    if n_layers > 0 {
+        let mut v = parsed.clone();
+        v.blobs.drain(2 * (n_layers - 1)..2 * n_layers);
+        v.head[0] -= 1;
+        layer_edits.push(("last layer removed".into(), v));
+        let mut v = parsed.clone();
+        v.blobs.drain(0..2);
+        v.head[0] -= 1;
+        layer_edits.push(("first layer removed".into(), v));
+        let mut v = parsed.clone();
+        let (a, b) = (parsed.blobs[2 * (n_layers - 1)].clone(), parsed.blobs[2 * (n_layers - 1) + 1].clone());
+        v.blobs.insert(2 * n_layers, a);
+        v.blobs.insert(2 * n_layers + 1, b);
+        v.head[0] += 1;
+        layer_edits.push(("last layer duplicated".into(), v));
+        if n_layers > 1 {
+            let mut v = parsed.clone();
+            v.blobs.swap(0, 2);
+            v.blobs.swap(1, 3);
+            layer_edits.push(("first two layers swapped".into(), v));
+        }
+    }
+    for (d, v) in layer_edits {
+        if let Ok(f) = read_like(&proof.fri_proof, &v.bytes()) {
+            let mut p = proof.clone();
+            p.fri_proof = f;
+            out.push((format!("FRI proof: {d}"), p));
+        }
+    }
+    // optional GKR proof
+    match &proof.gkr_proof {
+        None => {
+            for g in [vec![], vec![0u8; 8], vec![3, 0, 0, 0, 0, 0, 0, 0]] {
+                let mut p = proof.clone();
+                p.gkr_proof = Some(g.clone());
+                out.push((format!("GKR proof {g:?} added to a proof that has none"), p));
+            }
+        },
+        Some(g) => {
+            let mut p = proof.clone();
+            p.gkr_proof = None;
+            out.push(("GKR proof removed".into(), p));
+            for (d, ng) in [("emptied", vec![]), ("extended by a zero byte", [g.clone(), vec![0]].concat()), ("shortened by a byte", g[..g.len() - 1].to_vec())] {
+                let mut p = proof.clone();
+                p.gkr_proof = Some(ng);
+                out.push((format!("GKR proof {d}"), p));
+            }
+        },
+    }
+    // counts
+    for delta in [-1i32, 1] {
+        let mut p = proof.clone();
+        p.num_unique_queries = (p.num_unique_queries as i32 + delta) as u8;
+        out.push((format!("num_unique_queries changed by {delta}"), p));
+    }
+    // one more unique query claimed, with one more opened row in every query component
+    {
+        let n = proof.num_unique_queries as usize;
+        let mut p = proof.clone();
+        p.num_unique_queries += 1;
+        let mut ok = true;
+        let grow = |q: &air::proof::Queries| -> Option<air::proof::Queries> {
+            let mut bl = Blobs::parse(&q.to_bytes(), 0, &[4, 4], 0);
+            let row = bl.blobs[0].1.len() / n;
+            let last = bl.blobs[0].1[bl.blobs[0].1.len() - row..].to_vec();
+            bl.blobs[0].1.extend_from_slice(&last);
+            air::proof::Queries::read_from_bytes(&bl.bytes()).ok()
+        };
+        for q in p.trace_queries.iter_mut() {
+            match grow(q) {
+                Some(nq) => *q = nq,
+                None => ok = false,
+            }
+        }
+        match grow(&proof.constraint_queries) {
+            Some(nq) => p.constraint_queries = nq,
+            None => ok = false,
+        }
+        if ok {
+            out.push(("num_unique_queries + 1 with the last opened row repeated in every query component".into(), p));
+        }
+    }
+    for delta in [1u64, u64::MAX] {
+        let mut p = proof.clone();
+        p.pow_nonce = p.pow_nonce.wrapping_add(delta);
+        out.push((format!("pow_nonce changed by {delta}"), p));
+    }
+    out
+}
+
+/// deserializes a value of the same type as `_like` (for component types this crate cannot name)
+fn read_like<T: winterfell::Deserializable>(_like: &T, b: &[u8]) -> Result<T, winterfell::DeserializationError> {
+    T::read_from_bytes(b)
+}
+
 // GRID
 // =================================================================================================
 fn grid() -> Vec<(Shape, usize, usize, ProofOptions)> {
     let mut v = Vec::new();
     for ext in [FieldExtension::None, FieldExtension::Quadratic, FieldExtension::Cubic] {
-        for (trace_len, folding, rmd) in [(8usize, 2usize, 1usize), (16, 4, 3), (64, 2, 0), (128, 8, 7), (32, 16, 31)] {
+        for (trace_len, folding, rmd) in [(8usize, 2usize, 1usize), (16, 4, 3), (64, 2, 0), (128, 8, 7), (32, 16, 31), (16, 16, 0)] {
             for num_aux_rands in [1usize, 2, 3] {
                 for (queries, blowup, grinding) in [(4usize, 4usize, 0u32), (13, 8, 5)] {
                     v.push((Shape::Lagrange, trace_len, num_aux_rands, ProofOptions::new(queries, blowup, grinding, ext, folding, rmd)));
@@ -665,6 +935,27 @@ fn run_hasher<H: ElementHasher<BaseField = BaseElement> + Sync>(tag: &str, damag
             Ok(Ok(())) => fail(format!("proof accepted for a different public input: {what}")),
             Ok(Err(_)) => {},
             Err(_) => fail(format!("verifier panicked on a wrong public input at {}: {what}", last_panic())),
+        }
+
+        // structured damage: on every configuration with a short trace (all shapes, all extension degrees)
+        if trace_len <= 16 || (thorough() && trace_len <= 64) {
+            for (desc, p) in structured_variants(&proof) {
+                if p == proof {
+                    continue;
+                }
+                c.damaged += 1;
+                take_log();
+                let pb = p.to_bytes();
+                match catch_unwind(AssertUnwindSafe(|| match Proof::from_bytes(&pb) {
+                    Ok(p) => verify_as::<H>(p, start).is_ok(),
+                    Err(_) => false,
+                })) {
+                    Ok(false) => {},
+                    Ok(true) => fail(format!("proof with {desc} is accepted: {what}")),
+                    Err(_) if last_panic().starts_with(file!()) => c.air_refusals += 1,
+                    Err(_) => fail(format!("parsing/verifying a proof with {desc} panicked at {}: {what}", last_panic())),
+                }
+            }
         }
 
         if ci >= damage_first || trace_len > 16 {
